@@ -14,7 +14,11 @@ func ConfigYAML(sc *world.Scenario, w *world.World) string {
 	var b strings.Builder
 	p := func(format string, a ...any) { fmt.Fprintf(&b, format+"\n", a...) }
 	p("dbPath: %q", w.DBPath())
-	p("runFanInitializationInParallel: %v", sc.ParallelInit)
+	if !sc.ParallelInit && sc.FalseWord != "" {
+		p("runFanInitializationInParallel: %s", sc.FalseWord)
+	} else {
+		p("runFanInitializationInParallel: %v", sc.ParallelInit)
+	}
 	p("maxRpmDiffForSettledFan: %v", sc.MaxRpmDiff)
 	p("fanResponseDelay: %d", sc.FanResponseDelay)
 	p("tempSensorPollingRate: %s", sc.TempPoll.D())
@@ -119,7 +123,7 @@ func ConfigYAML(sc *world.Scenario, w *world.World) string {
 			p("      index: %d", TempIndex(sc, s.Chip, s.TempN))
 		case "file":
 			p("    file:")
-			p("      path: %s", st.Path)
+			p("      path: %s", cfgPath(st))
 		case "cmd":
 			p("    cmd:")
 			p("      exec: %s", st.Exe)
@@ -168,4 +172,12 @@ func ConfigYAML(sc *world.Scenario, w *world.World) string {
 	p("statistics:")
 	p("  enabled: false")
 	return b.String()
+}
+
+// cfgPath is the path of a file sensor as the configuration gives it.
+func cfgPath(st *world.SensorState) string {
+	if st.ConfigPath != "" {
+		return st.ConfigPath
+	}
+	return st.Path
 }
